@@ -399,6 +399,10 @@ impl Default for ProviderCfg {
     }
 }
 
+/// 0 = current-thread runtime (default); n > 0 = multi-thread runtime with n workers for the next
+/// `Engine::new`.
+pub static WORKER_THREADS: std::sync::atomic::AtomicUsize = std::sync::atomic::AtomicUsize::new(0);
+
 pub struct Engine {
     pub rt: tokio::runtime::Runtime,
     pub app: axum::Router,
@@ -473,7 +477,11 @@ impl Engine {
         std::fs::create_dir_all(&data).map_err(|e| e.to_string())?;
         std::fs::create_dir_all(&ws).map_err(|e| e.to_string())?;
         isolate_process_env(root);
-        let rt = tokio::runtime::Builder::new_current_thread().enable_all().build().map_err(|e| format!("runtime: {e}"))?;
+        let rt = if WORKER_THREADS.load(std::sync::atomic::Ordering::SeqCst) > 0 {
+            tokio::runtime::Builder::new_multi_thread().worker_threads(WORKER_THREADS.load(std::sync::atomic::Ordering::SeqCst)).enable_all().build().map_err(|e| format!("runtime: {e}"))?
+        } else {
+            tokio::runtime::Builder::new_current_thread().enable_all().build().map_err(|e| format!("runtime: {e}"))?
+        };
         let provider = rt.block_on(start_provider(script))?;
         let or = if with_provider {
             let tc = ripd::verif_api::parse_tool_choice(&cfg.tool_choice).map_err(|e| format!("tool_choice: {e}"))?;
@@ -540,5 +548,189 @@ impl Engine {
 
     pub fn requests(&self) -> Vec<Recorded> {
         self.provider.requests.lock().unwrap().clone()
+    }
+}
+
+// ---------------------------------------------------------------------------------------------
+// async gates: the simulator's control over the guarded `rip_kernel::verif::yield_async` points
+// (session/task emitters, stream handlers). A task that visits a point can be held there — it
+// keeps returning Pending, so every other task of the runtime runs — until a deadline, or until
+// the harness releases it.
+
+pub mod gates {
+    use std::collections::{BTreeMap, HashMap};
+    use std::sync::Mutex;
+    use std::time::{Duration, Instant};
+
+    use crate::prng::Rng;
+
+    #[derive(Clone, Debug, serde::Serialize, serde::Deserialize, PartialEq)]
+    pub enum Release {
+        /// held until `release_all` / `release_point` (safety cap applies)
+        Manual,
+        /// held for this many milliseconds of real time
+        AfterMs(u64),
+    }
+
+    #[derive(Clone, Debug, serde::Serialize, serde::Deserialize, PartialEq)]
+    pub struct HoldRule {
+        /// point name prefix
+        pub point: String,
+        /// hold the n-th visit (0-based) of a matching point
+        pub nth: u64,
+        pub release: Release,
+    }
+
+    #[derive(Clone, Debug, Default, serde::Serialize, serde::Deserialize, PartialEq)]
+    pub struct Plan {
+        pub rules: Vec<HoldRule>,
+        /// additionally hold any visit with probability num/den for 0..=max_ms
+        pub random: Option<(u64, u64, u64, u64)>, // seed, num, den, max_ms
+    }
+
+    struct Hold {
+        point: &'static str,
+        until: Option<Instant>,
+        cap: Instant,
+        by_rule: bool,
+    }
+
+    struct State {
+        plan: Plan,
+        rng: Rng,
+        visits: BTreeMap<&'static str, u64>,
+        prefix_visits: Vec<u64>,
+        holds: HashMap<String, Hold>,
+        held_total: BTreeMap<&'static str, u64>,
+        released: bool,
+    }
+
+    static STATE: Mutex<Option<State>> = Mutex::new(None);
+
+    fn noop_name(_: &'static str) {}
+    fn noop_addr(_: usize) {}
+
+    /// Synchronous scheduling point (e.g. the entry of a `subscribe()`): the calling OS thread is
+    /// parked here while held; the other worker threads of the runtime keep running.
+    fn sync_visit(name: &'static str) {
+        let key = format!("sync-{:?}", std::thread::current().id());
+        loop {
+            let n = visit(name, key.clone());
+            if n == 0 {
+                return;
+            }
+            std::thread::sleep(Duration::from_micros(200));
+        }
+    }
+    fn blocked(_: usize) {
+        std::thread::yield_now();
+    }
+
+    pub static ASYNC_HOOKS: rip_kernel::verif::Hooks = rip_kernel::verif::Hooks { yield_point: sync_visit, before_lock: noop_addr, lock_blocked: blocked, lock_released: noop_addr, tick: noop_name, async_yields: on_visit };
+
+    pub fn install(plan: Plan) {
+        let seed = plan.random.map(|r| r.0).unwrap_or(1);
+        let n = plan.rules.len();
+        *STATE.lock().unwrap() = Some(State { plan, rng: Rng::new(seed), visits: BTreeMap::new(), prefix_visits: vec![0; n], holds: HashMap::new(), held_total: BTreeMap::new(), released: false });
+        rip_kernel::verif::set_hooks(&ASYNC_HOOKS);
+    }
+
+    /// Returns (visits per point, holds per point).
+    pub fn uninstall() -> (BTreeMap<String, u64>, BTreeMap<String, u64>) {
+        rip_kernel::verif::clear_hooks();
+        let st = STATE.lock().unwrap().take();
+        match st {
+            Some(s) => (s.visits.iter().map(|(k, v)| (k.to_string(), *v)).collect(), s.held_total.iter().map(|(k, v)| (k.to_string(), *v)).collect()),
+            None => (BTreeMap::new(), BTreeMap::new()),
+        }
+    }
+
+    fn task_key() -> String {
+        match tokio::task::try_id() {
+            Some(id) => format!("{id}"),
+            None => "root".to_string(),
+        }
+    }
+
+    fn on_visit(name: &'static str) -> u32 {
+        visit(name, task_key())
+    }
+
+    fn visit(name: &'static str, key: String) -> u32 {
+        let Ok(mut g) = STATE.lock() else {
+            return 0;
+        };
+        let Some(st) = g.as_mut() else {
+            return 0;
+        };
+        let now = Instant::now();
+        if let Some(h) = st.holds.get(&key) {
+            let done = st.released && h.until.is_none() || h.until.map(|u| now >= u).unwrap_or(false) || now >= h.cap;
+            if done {
+                st.holds.remove(&key);
+                return 0;
+            }
+            drop(g);
+            // the held task re-arms its waker at once; do not spin the core at full speed
+            std::thread::sleep(Duration::from_micros(60));
+            return 1;
+        }
+        *st.visits.entry(name).or_insert(0) += 1;
+        let mut hold: Option<Option<Instant>> = None;
+        for (i, r) in st.plan.rules.iter().enumerate() {
+            if name.starts_with(r.point.as_str()) {
+                let k = st.prefix_visits[i];
+                st.prefix_visits[i] += 1;
+                if k == r.nth && hold.is_none() {
+                    hold = Some(match r.release {
+                        Release::Manual => None,
+                        Release::AfterMs(ms) => Some(now + Duration::from_millis(ms)),
+                    });
+                }
+            }
+        }
+        let by_rule = hold.is_some();
+        if hold.is_none() {
+            if let Some((_, num, den, max_ms)) = st.plan.random {
+                if st.rng.chance(num, den) {
+                    let ms = st.rng.range(0, max_ms);
+                    hold = Some(Some(now + Duration::from_millis(ms)));
+                }
+            }
+        }
+        match hold {
+            None => 0,
+            Some(until) => {
+                if until.is_none() && st.released {
+                    return 0;
+                }
+                *st.held_total.entry(name).or_insert(0) += 1;
+                st.holds.insert(key, Hold { point: name, until, cap: now + Duration::from_secs(5), by_rule });
+                1
+            }
+        }
+    }
+
+    /// Number of tasks currently held at a point with this prefix by a rule (not by a random hold).
+    pub fn held_at(prefix: &str) -> usize {
+        STATE.lock().ok().and_then(|g| g.as_ref().map(|s| s.holds.values().filter(|h| h.point.starts_with(prefix) && h.by_rule).count())).unwrap_or(0)
+    }
+
+    /// Release every manual hold, now and for the rest of the scenario.
+    pub fn release_all() {
+        if let Ok(mut g) = STATE.lock() {
+            if let Some(s) = g.as_mut() {
+                s.released = true;
+            }
+        }
+    }
+
+    /// Allow manual holds again (after `release_all`).
+    pub fn rearm() {
+        if let Ok(mut g) = STATE.lock() {
+            if let Some(s) = g.as_mut() {
+                s.released = false;
+            }
+        }
     }
 }
